@@ -74,8 +74,12 @@ pub fn run(args: &Args) {
             let name_i = lazy.get_sheet_collection_no_check()[i].get_name().to_string();
             let mut op = rng.below(13);
             // in-range arguments only: no insert below content that already sits on the last row
-            if op == 10 && eager.get_sheet_collection_no_check()[i].get_highest_row() >= 1_048_576 {
-                op = 0;
+            if op == 10 {
+                let ws = &eager.get_sheet_collection_no_check()[i];
+                let last_row_entry = ws.get_row_dimensions().iter().map(|r| *r.get_row_num()).max().unwrap_or(0);
+                if ws.get_highest_row().max(last_row_entry) >= 1_048_576 {
+                    op = 0;
+                }
             }
             uid += 1;
             let desc;
@@ -222,7 +226,14 @@ pub fn run(args: &Args) {
                         (Ok(dl), Ok(de)) => {
                             o.observations += de.len() as u64;
                             let mut per: BTreeMap<String, u32> = BTreeMap::new();
+                            // same normal form as C04: a font that is None on one side and Some on the other is a wildcard
+                            // (None = font 0 of that file; sheets written from raw XML keep explicit fonts, re-serialised ones do not)
+                            let (el, ee) = (explicit_font_objects(&rl), explicit_font_objects(&re));
+                            let wild: Vec<&String> = el.symmetric_difference(&ee).collect();
                             for di in diff(&de, &dl) {
+                                if di.key.contains("font.") && wild.iter().any(|p| di.key.starts_with(p.as_str())) {
+                                    continue;
+                                }
                                 let sig = at(&format!("saved-result-differs:{}", di.class));
                                 let n = per.entry(sig.clone()).or_insert(0);
                                 *n += 1;
